@@ -330,6 +330,8 @@ func (c *Cond) Wait() {
 	if !simrt.InSim() {
 		panic("simsync.Cond.Wait outside simulation")
 	}
+	// as the real Cond: first join the notify list, then unlock, then suspend
+	simrt.Ask(simrt.ReqCondAdd, simrt.OpCond, addr(c), 0, nil)
 	c.L.Unlock()
 	simrt.Ask(simrt.ReqCondWait, simrt.OpCond, addr(c), 0, nil)
 	simrt.RaceAcquire(unsafe.Pointer(c))
